@@ -48,12 +48,13 @@ Proof.
   - destruct H as (_ & E & _). congruence.
 Qed.
 
-Lemma first_bad_tag_none want : forall l,
-  first_bad_tag want l = None -> forall k n, In (k, Some n) l -> is_tag (n_tag n) want = true.
+Lemma first_bad_tag_none want kd : forall l,
+  first_bad_tag want kd l = None -> forall k n, In (k, Some n) l -> is_tag (n_tag n) want = true.
 Proof.
   induction l as [|[k o] r IH]; intros H k0 n Hin; [destruct Hin|].
   cbn [first_bad_tag] in H. destruct o as [m|].
-  - destruct (negb (is_tag (n_tag m) want)) eqn:E; [discriminate|]. apply negb_false_iff in E.
+  - destruct (negb (is_tag (n_tag m) want) || kind_mismatch m kd)%bool eqn:E; [discriminate|].
+    apply orb_false_iff in E. destruct E as [E _]. apply negb_false_iff in E.
     destruct Hin as [X|X]; [inversion X; subst; exact E|exact (IH H k0 n X)].
   - destruct Hin as [X|X]; [discriminate|exact (IH H k0 n X)].
 Qed.
@@ -79,7 +80,8 @@ Proof.
   induction l as [|[k v] r IH]; intros seen H.
   - repeat split; [intros ? ? []|constructor|intros ? []].
   - cbn [validate_string_map_loop] in H.
-    destruct (negb (is_tag (n_tag v) strTag)) eqn:E1; [discriminate|]. apply negb_false_iff in E1.
+    destruct (negb (is_tag (n_tag v) strTag) || kind_mismatch v KScalar)%bool eqn:E1; [discriminate|].
+    apply orb_false_iff in E1. destruct E1 as [E1 _]. apply negb_false_iff in E1.
     destruct (mem_str (n_value k) seen) eqn:E2; [discriminate|].
     destruct (IH _ H) as (A & B & C). repeat split.
     + intros k0 v0 [X|X]; [inversion X; subst; exact E1|exact (A k0 v0 X)].
@@ -852,10 +854,10 @@ Section Rule.
     assert (T5 : forall k n, In (k, Some n) [("record", onode (s_record s)); ("alert", onode (s_alert s)); ("expr", onode (s_expr s));
                                              ("for", onode (s_for s)); ("keep_firing_for", onode (s_keep s))] ->
                              is_tag (n_tag n) strTag = true).
-    { apply first_bad_tag_none. destruct (first_bad_tag strTag _) as [[k0 p0]|]; [discriminate C5|reflexivity]. }
+    { apply (first_bad_tag_none strTag KScalar). destruct (first_bad_tag strTag _ _) as [[k0 p0]|]; [discriminate C5|reflexivity]. }
     assert (T6 : forall k n, In (k, Some n) [("labels", onode (s_labels s)); ("annotations", onode (s_ann s))] ->
                              is_tag (n_tag n) mapTag = true).
-    { apply first_bad_tag_none. destruct (first_bad_tag mapTag _) as [[k0 p0]|]; [discriminate C6|reflexivity]. }
+    { apply (first_bad_tag_none mapTag KMapping). destruct (first_bad_tag mapTag _ _) as [[k0 p0]|]; [discriminate C6|reflexivity]. }
     assert (TN : forall k n, In (k, Some n) [("record", onode (s_record s)); ("alert", onode (s_alert s)); ("expr", onode (s_expr s))] ->
                              n_tag n = nullTag -> n_value n = "").
     { apply first_null_text_none. destruct (first_null_text _) as [[k0 p0]|]; [discriminate CN|reflexivity]. }
